@@ -197,75 +197,75 @@ def conjuncts(e):
 
 def spin_rules(rep, D):
     one = lambda q: D.one("^" + q + "$", pattern=False)[0]
-    # --- pika::concurrency::detail::spinlock
-    acq = one("pika::concurrency::detail::spinlock::acquire_lock")
-    xs = exchange_calls(acq, "this->v_")
-    if len(xs) != 1:
-        raise AnalysisBroken("acquire_lock: expected one v_.exchange, found %d" % len(xs))
-    ev = xs[0][2]
-    okx = T(ev["args"][0]) == "true" and mo_of(ev) in ACQ
-    rets = [e for _, _, e in acq.all_events() if e.get("k") == "return"]
-    neg = len(rets) == 1 and cond_atoms(rets[0]["e"]) == (T(ev), False)
-    if okx and neg:
-        rep.ok("C06.R5", acq, "acquire_lock returns !v_.exchange(true, %s)" % mo_of(ev))
-    else:
-        rep.bad("C06.R5", acq, loc_of(ev), "acquire", "acquisition must be 'return !v_.exchange(true, >=acquire)' "
-                "(found value %s, order %s, return %s)" % (T(ev["args"][0]), mo_of(ev), T(rets[0]["e"]) if rets else None))
-    relq = one("pika::concurrency::detail::spinlock::relinquish_lock")
-    ss = store_calls(relq, "this->v_")
+    from engine.kinds import guarded_returns, expand_locals
+    # --- pika::concurrency::detail::spinlock, read with its private helpers (acquire_lock / relinquish_lock / is_locked)
+    # in place: the rules are about the entry points lock / try_lock / unlock and hold whether or not the helpers exist
+    SP = "pika::concurrency::detail::spinlock"
+    DF = facts(rep, driver("c06_mutex.cpp"), [r"^pika::concurrency::detail::spinlock::", r"^pika::detail::spinlock::", r"^pika::detail::recursive_mutex_impl::"],
+               flatten=[r"^pika::concurrency::detail::spinlock::(acquire_lock|relinquish_lock)$"])
+    onef = lambda q: DF.one("^" + q + "$", pattern=False)[0]
+    lk, tl, unl = onef(SP + "::lock"), onef(SP + "::try_lock"), onef(SP + "::unlock")
+    for f in (lk, tl, unl):
+        if f.calls(r"::(acquire_lock|relinquish_lock)$"):
+            raise AnalysisBroken("%s: helper could not be flattened" % f.qname)
+    acq_atom = lambda a: a.startswith("this->v_.exchange(true")
+    # acquisition: v_.exchange(true, >=acquire), success iff it returned false
+    for f in (lk, tl):
+        xs = exchange_calls(f, "this->v_")
+        if len(xs) != 1:
+            raise AnalysisBroken("%s: expected one v_.exchange, found %d" % (f.qname, len(xs)))
+        ev = xs[0][2]
+        if T(ev["args"][0]) == "true" and mo_of(ev) in ACQ:
+            rep.ok("C06.R5", f, "acquisition attempt is v_.exchange(true, %s)" % mo_of(ev))
+        else:
+            rep.bad("C06.R5", f, loc_of(ev), "acquire", "acquisition must be v_.exchange(true, >=acquire) (found value %s, order %s)" % (T(ev["args"][0]), mo_of(ev)))
+    ss = store_calls(unl, "this->v_")
     if len(ss) != 1:
-        raise AnalysisBroken("relinquish_lock: expected one v_.store")
-    ev = ss[0][2]
-    if T(ev["args"][0]) == "false" and mo_of(ev) in REL:
-        rep.ok("C06.R5", relq, "release is v_.store(false, %s)" % mo_of(ev))
+        if not ss:
+            rep.bad("C06.R5", unl, unl.loc, "unlock-no-release", "unlock() does not release")
+        else:
+            raise AnalysisBroken("spinlock::unlock: expected one v_.store")
     else:
-        rep.bad("C06.R5", relq, loc_of(ev), "release", "release must be v_.store(false, >=release); found %s, %s" % (T(ev["args"][0]), mo_of(ev)))
-    for f in D.find(r"^pika::concurrency::detail::spinlock::", pattern=False):
-        if f.qname.endswith(("acquire_lock", "relinquish_lock")) or f.kind in ("ctor", "dtor"):
+        ev = ss[0][2]
+        cf = CountFlow(unl, lambda e, pos: 1 if e is ev else 0)
+        if T(ev["args"][0]) == "false" and mo_of(ev) in REL and cf.exits == frozenset([1]):
+            rep.ok("C06.R5", unl, "unlock() releases with v_.store(false, %s) on every path" % mo_of(ev))
+        else:
+            rep.bad("C06.R5", unl, loc_of(ev), "release", "release must be v_.store(false, >=release) on every path of unlock(); found %s, %s, count %s" % (T(ev["args"][0]), mo_of(ev), sorted(cf.exits)))
+    for f in DF.find(r"^pika::concurrency::detail::spinlock::", pattern=False):
+        if f in (lk, tl, unl) or f.kind in ("ctor", "dtor"):
             continue
         for b, i, ev in f.all_events():
             if ev.get("k") == "call" and ev.get("recv") is not None and P(ev["recv"]) == "this->v_" and \
                     callee_short(ev) not in ("load",):
-                rep.bad("C06.R5", f, loc_of(ev), "v_-modified:" + callee_short(ev), "v_ modified outside acquire_lock/relinquish_lock")
-    lk = one("pika::concurrency::detail::spinlock::lock")
+                rep.bad("C06.R5", f, loc_of(ev), "v_-modified:" + callee_short(ev), "v_ modified outside lock/try_lock/unlock")
     ff = FactFlow(lk)
     st = ff.block_in.get(lk.exit)
     if st is None:
         raise AnalysisBroken("spinlock::lock has no reachable exit")
-    if ("this->acquire_lock()", True) in st:
-        rep.ok("C06.R5", lk, "lock() leaves only through the edge on which acquire_lock() returned true")
+    if any(acq_atom(a) and not t for a, t in st):
+        rep.ok("C06.R5", lk, "lock() leaves only through the edge on which v_.exchange(true) returned false (lock was free)")
     else:
-        rep.bad("C06.R5", lk, lk.loc, "lock-exit", "lock() can return without a successful acquire_lock()")
-    unl = one("pika::concurrency::detail::spinlock::unlock")
-    if unl.calls(r"::relinquish_lock$"):
-        rep.ok("C06.R5", unl, "unlock() calls relinquish_lock()")
-    else:
-        rep.bad("C06.R5", unl, unl.loc, "unlock-no-release", "unlock() does not release")
-    tl = one("pika::concurrency::detail::spinlock::try_lock")
+        rep.bad("C06.R5", lk, lk.loc, "lock-exit", "lock() can return without a successful acquisition")
     ff = FactFlow(tl)
     for b, i, ev in tl.all_events():
         if ev.get("k") != "return" or (b, i) not in ff.before:
             continue
-        v = strip(ev["e"])
-        if v.get("k") == "lit" and v.get("v") is True:
-            fb = ff.before[(b, i)]
-            good = False
-            for a, t in fb:
-                if not t:
-                    continue
-                ini = local_init(tl, a)
-                if a == "this->acquire_lock()" or (ini is not None and T(strip(ini)) == "this->acquire_lock()"):
-                    good = True
-            if good:
-                rep.ok("C06.R5", tl, "try_lock returns true only when acquire_lock() succeeded")
+        for leaf, fb, _ in [g for g in guarded_returns(tl, ff) if g[2] is ev]:
+            v = strip(leaf)
+            if v.get("k") == "lit" and v.get("v") is True:
+                if any(acq_atom(a) and not t for a, t in fb):
+                    rep.ok("C06.R5", tl, "try_lock returns true only when the exchange found the lock free")
+                else:
+                    rep.bad("C06.R5", tl, loc_of(ev), "try-true", "try_lock returns true without a successful acquisition")
+            elif v.get("k") == "lit" and v.get("v") is False:
+                pass
             else:
-                rep.bad("C06.R5", tl, loc_of(ev), "try-true", "try_lock returns true without a successful acquire_lock()")
-        elif v.get("k") == "lit" and v.get("v") is False:
-            pass
-        else:
-            if T(v) != "this->acquire_lock()":
-                raise AnalysisBroken("spinlock::try_lock returns %s: rule needs updating" % T(v))
-            rep.ok("C06.R5", tl, "try_lock returns acquire_lock()")
+                a, pos = cond_atoms(expand_locals(tl, leaf))
+                if acq_atom(a) and not pos:
+                    rep.ok("C06.R5", tl, "try_lock returns !v_.exchange(true)")
+                else:
+                    rep.bad("C06.R5", tl, loc_of(ev), "try-value", "try_lock returns %s, which is not the outcome of the acquisition" % T(leaf))
 
     # --- pika::detail::spinlock (thread_support)
     tl = one("pika::detail::spinlock::try_lock")
@@ -353,11 +353,14 @@ def recursive_rules(rep, D):
     # try_recursive_lock
     tr = one("try_recursive_lock")
     ff = FactFlow(tr)
+    if len(tr.params) != 1:
+        raise AnalysisBroken("try_recursive_lock: expected one parameter (the caller's context)")
+    CTX = tr.params[0]["name"]          # the caller's context (the parameter's name is free)
     for b, i, ev in tr.all_events():
         fb = ff.before.get((b, i))
         if fb is None:
             continue
-        own = any(t and "this->locking_context.load(" in a and "current_context" in a and "==" in a for a, t in fb)
+        own = any(t and "this->locking_context.load(" in a and re.search(r"(^|[^\w.>])%s($|[^\w])" % re.escape(CTX), a) and "==" in a for a, t in fb)
         if ev.get("k") == "return":
             v = strip(ev["e"])
             if v.get("k") == "lit" and v.get("v") is True:
